@@ -171,6 +171,7 @@ func run(r *core.Run) {
 	r.Rule = "statements from a grammar (SELECT/INSERT/UPDATE/DELETE/UNION with joins, sub-selects, derived tables, IN lists) rendered in several spellings; patterns derived from the statement by generalising subsets of its literals/columns/lists/sub-selects/WHERE/whole statement; censor configurations = random chains of allow/deny/allowall/denyall/query_ignore/query_capture with query, table and pattern rules built from the statement and from unrelated ones; malformed statements; sessions = interleavings of allowed and denied statements and database completions. Non-trivial: the statement parses (or the case is about parse errors) and the configuration has at least one handler; distinct by (configuration, statement text)."
 	runCorpus(r)
 	runPatterns(r)
+	runGeneralise(r)
 	runChains(r)
 	runTables(r)
 	runSessions(r)
